@@ -9,7 +9,7 @@ ALPHABET = "aA1-.@_\n"
 # str patterns): two non-ASCII decimal digits (Arabic-Indic three, full-width seven), a non-ASCII lower and upper case letter,
 # a non-ASCII space, carriage return - combined with the ASCII letter, digit, dot and dash.  The documented languages are ASCII
 # ("lowercase letter" = a-z, "decimal integers" = 0-9 runs, as the unchanged patterns have it); the spec predicates decide.
-UNI_ALPHABET = "a1.-\u0663\uff17\u00e9\u00c9\u00a0\r"
+UNI_ALPHABET = "a1.-\u0663\uff17\u00e9\u00c9\u00a0\r \t\U0001d7d9"   # + blank, tab, an astral decimal digit (U+1D7D9)
 PREDS = ("short", "version", "type")
 
 
@@ -31,6 +31,9 @@ def spec_version(s):
         return True
     return all(len(g) > 0 and all("0" <= c <= "9" for c in g) for g in s.split("."))
 
+
+# the nine documented known release types (the property's quantifier); the generators use these AND the table of the tree under test
+SPEC_TYPES = ["fast", "ga", "updates", "updates-testing", "eus", "aus", "els", "tus", "e4s"]
 
 SPEC = {"short": spec_short, "type": spec_short, "version": spec_version}
 
@@ -60,8 +63,8 @@ class C14(Prop):
     thorough_budget = 120000
     exhaustive = True
     rule = ("predicates: EVERY string of length <= 6 (quick) / <= 8 (thorough) over the 8-symbol alphabet {a,A,1,-,.,@,_,LF} through the real "
-            "is_valid_release_short/_version/_type, and EVERY string of length <= 4 / <= 6 over a 10-symbol alphabet of the classes CPython distinguishes "
-            "beyond ASCII {a,1,.,-,U+0663,U+FF17,e-acute,E-acute,NBSP,CR}, against a Python transcription of the documented languages (oracle) and the Lean model and Lean "
+            "is_valid_release_short/_version/_type, and EVERY string of length <= 4 / <= 6 over a 13-symbol alphabet of the classes CPython distinguishes "
+            "beyond ASCII {a,1,.,-,U+0663,U+FF17,e-acute,E-acute,NBSP,CR,blank,TAB,U+1D7D9}, against a Python transcription of the documented languages (oracle) and the Lean model and Lean "
             "specification (correspondence), plus random longer strings over a wider alphabet; round trip: generated (short, version, type"
             "[, base product]) with dashed/undashed shorts, numeric/free-form versions, every known release type, targeted cases derived "
             "from the type table; create: EVERY string up to length 5/6 (8-symbol alphabet) and 3/4 (Unicode-class alphabet) in each of the six argument "
@@ -91,7 +94,9 @@ class C14(Prop):
         return self._gen
 
     def types(self):
-        return list(self.gen()["tables"]["RELEASE_TYPES"])
+        """documented known types first, then whatever else the table of the tree under test contains"""
+        table = list(self.gen()["tables"]["RELEASE_TYPES"])
+        return SPEC_TYPES + [t for t in table if t not in SPEC_TYPES]
 
     def common(self):
         if self._common is None:
@@ -141,7 +146,7 @@ class C14(Prop):
             out.append({"op": "pred", "args": {"which": which, "s": s}})
         out.append(self.rt_case("my-prod", "1.0", "ga"))
         # (1b) the exhaustive enumeration over the property's 8-symbol alphabet, in 9 blocks (the empty string, then by first
-        # character), and over the 10-symbol Unicode-class alphabet (length <= 4 quick / <= 6 thorough), by first character
+        # character), and over the 13-symbol Unicode-class alphabet (length <= 4 quick / <= 6 thorough), by first character
         maxlen = 8 if tier == "thorough" else 6
         out.append({"op": "pred_block", "args": {"alphabet": ALPHABET, "prefix": "", "n": 0}})
         for a in ALPHABET:
@@ -164,23 +169,24 @@ class C14(Prop):
             if not pos.startswith("bp_"):       # and without a base product at all
                 out.append({"op": "create_block", "args": dict(ctxs[0], bp_short=None, bp_version=None, bp_type=None,
                                                                alphabet=ALPHABET, n=cn - 1, pos=pos)})
+        # (1d) every value of the hand-written pools once, as a predicate case and as a plain create/round-trip case
+        out.extend(self.pool_sweep())
         # (2) round trips
         n_rt = budget * 5 // 10
         out.extend(self.targeted_from_table(types))
+        streams = [self.systematic_types(types, tier), self.gen_sequences(rng, types, tier), self.gen_create_odd(types),
+                   self.gen_parse_shapes(rng, types)]
         f9 = [0]
-        k = 0
-        while k < n_rt:
-            c = self.gen_roundtrip(rng, types, k, f9)
-            if c is not None:
-                out.append(c); k += 1
+        rts = [self.gen_roundtrip(rng, types, k, f9) for k in range(n_rt)]
+        streams.append(rts)
         # (3) create: corruptions and base-product defaults
-        for i in range(budget * 2 // 10):
-            out.append(self.gen_create(rng, types, i))
+        streams.append([self.gen_create(rng, types, i) for i in range(budget * 2 // 10)])
         # (4) parse on arbitrary identifiers (correspondence of the parser model)
-        out.extend(self.gen_parse(rng, types, budget * 2 // 10, tier))
+        streams.append(self.gen_parse(rng, types, budget * 2 // 10, tier))
         # (5) predicates on random longer strings over a wider alphabet
         wide = "abcxyz0123456789-..@_AZ \té٣+~"
         n_nl = 0
+        streams.append([])
         for i in range(budget // 10):
             n = rng.randint(7, 24)
             base = rng.choice(["", "f", "fedora-", "1.", "23", "a-", "rhel-7"])
@@ -189,16 +195,32 @@ class C14(Prop):
                 n_nl += 1
                 k = rng.choice([len(s), len(s), rng.randint(0, len(s))])
                 s = s[:k] + "\n" + s[k:]
-            out.append({"op": "pred", "args": {"which": PREDS[i % 3], "s": s}})
+            streams[-1].append({"op": "pred", "args": {"which": PREDS[i % 3], "s": s}})
+        # a sample of EVERY stream comes first (the pipeline stops exploring after 50 unlisted failures or disagreements at a
+        # 2000-case boundary - e.g. when a rewritten pattern falls outside the translated fragment), then the remainders
+        head_n = 180
+        for st in streams[:4]:
+            rng.shuffle(st)
+        for st in streams:
+            out.extend(st[:head_n])
+        for st in streams:
+            out.extend(st[head_n:])
         return out
 
     POSITIONS = ("short", "version", "type", "bp_short", "bp_version", "bp_type")
     POS_PRED = {"short": "short", "version": "version", "type": "type", "bp_short": "short", "bp_version": "version", "bp_type": "type"}
 
-    SHORT_SEGS = ["f", "fedora", "rhel", "a1", "x", "prod", "my", "z9z", "ga", "fast", "eus", "updates", "testing", "e4s", "b2c3"]
-    NUM_VERSIONS = ["1", "23", "7.1", "1.2.3", "0", "10.0.0.1", "007", "2015.12"]
+    SHORT_SEGS = ["f", "fedora", "rhel", "a1", "x", "prod", "my", "z9z", "ga", "fast", "eus", "updates", "testing", "e4s", "b2c3",
+                  "none", "null", "false", "status", "breakfast", "pixels", "gala", "xga", "e4s1", "a" * 300]
+    NUM_VERSIONS = ["1", "23", "7.1", "1.2.3", "0", "10.0.0.1", "007", "2015.12", "00", "0.0", "1.0", "2147483648", "4294967303",
+                    "9007199254740993", "9223372036854775807", "10000000.100000000", "1.1.1.1", "7.0.1.2.3.4.5", "1" * 300,
+                    ".".join(["12"] * 110)]
     FREE_VERSIONS = ["Rawhide", "rawhide", "x", "_", "A.1", "v 1", ".", "x.y", "a1", "n1.2", "é", "R_2", "eus", "ga", "updates", "fast",
-                     "testing", "xga", "afast", "tus", "els", "aus", "e4s", "b٣", "٣x", "７server", "٣", "É1", "\u00a01", "a\rb"]
+                     "testing", "xga", "afast", "tus", "els", "aus", "e4s", "b٣", "٣x", "７server", "٣", "É1", "\u00a01", "a\rb",
+                     # the format's delimiters and their doubled forms inside a (legal, free-form) version; values that look like other types
+                     "a:b", "a/b", "a,b", "a;b", "a=b", "a#b", "a%b", "a%%b", "[x]", "\"q\"", "a'b", "a\\b", "..", "a..b", "x::y", "a//b", ".1", ":",
+                     "None", "null", "False", "true", "NaN", "__", " ", " x", "x ", "a b c", "\t", "x\ty", "\u00a0", "\U0001d7d9", "\U0001d7d9.1",
+                     "v" + "x" * 300, "R" + ".9" * 150, "pixels", "Taus", "status", "breakfast", "x.e4s", "e4s1", "gala", "begat"]
 
     def gen_short(self, rng, dashed):
         n = rng.choice([2, 2, 3, 4]) if dashed else 1
@@ -267,6 +289,107 @@ class C14(Prop):
             out.append(self.rt_case("f", "23", t)); out.append(self.rt_case("f", "23", t, ("rhel", "7", t)))
         return out
 
+    def pool_sweep(self):
+        out = []
+        for v in self.NUM_VERSIONS + self.FREE_VERSIONS:
+            out.append({"op": "pred", "args": {"which": "version", "s": v}})
+            out.append(self.rt_case("f", v, "updates", ("rhel", v, "ga")))
+        for sh in self.SHORT_SEGS:
+            out.append({"op": "pred", "args": {"which": "short", "s": sh}})
+            out.append({"op": "pred", "args": {"which": "type", "s": sh}})
+            if spec_short(sh):
+                out.append(self.rt_case(sh, "7.1", "e4s", (sh, "7", "ga")))
+        return [c for c in out if not (c["op"] == "pred" and "\n" in c["args"]["s"])]
+
+    def systematic_types(self, types, tier):
+        """every known type for the release x every known type for the base product; every type name embedded in (equal to, prefix of,
+        suffix of, inside) the short name and the version of an id of every type - release and base product alike"""
+        out = []
+        for t in types:                                   # full cross product, plain and dashed short names (dashed only outside F9)
+            for u in types:
+                out.append(self.rt_case("f", "23", t, ("rhel", "7.1", u)))
+                out.append(self.rt_case("f" if t == "ga" else "my-prod", "Rawhide", t, ("b" if u == "ga" else "b-2-c", "x.y", u)))
+        for e in types:                                   # e = the embedded type name
+            segs = e.split("-")
+            shorts = [e, "x" + e, e + "x", "x" + e + "y", e + "7", "a-" + e, e + "-a", "a-" + e + "-7", e + "-" + e]
+            versions = []
+            for g in set(segs + ["".join(segs)]):
+                versions += [g, "x" + g, g + "x", "x" + g + "y", g + ".1", "T" + g, g + g, "x." + g, g.upper(), "1." + g]
+            for t in types:
+                for sh in shorts:
+                    if t == "ga" and "-" in sh:
+                        continue                          # F9 region (known finding; witnessed elsewhere)
+                    out.append(self.rt_case(sh, "7", t))
+                    if tier != "quick" or t in ("e4s", "updates-testing", e):
+                        out.append(self.rt_case("f", "23", "ga", (sh, "7", t)))
+                for v in versions:
+                    out.append(self.rt_case("f", v, t))
+                    if tier != "quick" or t in ("e4s", "updates-testing", "ga", e):
+                        out.append(self.rt_case("my-prod", "1", "updates", ("b", v, t)))
+        return out
+
+    def gen_sequences(self, rng, types, tier):
+        """several create+parse round trips in ONE case, each result compared as a whole dict with what was put in: the same call twice,
+        layered-then-plain and plain-then-layered with the same release part, a failing parse in between, the returned dict
+        mutated by the caller before the next call"""
+        out = []
+        def item(s, v, t, bp=None):
+            return self.rt_case(s, v, t, bp)["args"]
+        pool = [("rhscl", "2.1", "ga", ("rhel", "7", "ga")), ("f", "23", "updates", ("b", "x", "e4s")), ("my-prod", "7.1", "updates-testing", ("rhel", "7", "eus")),
+                ("f", "Rawhide", "e4s", ("f", "Rawhide", "e4s")), ("a1", "1.2.3", "fast", ("b-2", "Q", "updates-testing"))]
+        n = len(pool) if tier == "quick" else len(pool) * 4
+        for k in range(n):
+            if k < len(pool):
+                s, v, t, bp = pool[k]
+            else:
+                f9 = [10 ** 9]
+                s, v, t = self.gen_part(rng, types, k, f9); bp = self.gen_part(rng, types, k // 2, f9)
+            plain, layered, bponly = item(s, v, t), item(s, v, t, bp), item(*bp)
+            other = item(s, v, t, (bp[0], bp[1], types[(k + 3) % len(types)]))
+            for seq in ([layered, plain], [plain, layered, plain], [layered, layered], [plain, plain], [layered, bponly, plain],
+                        [layered, other, layered, plain], [bponly, layered, bponly]):
+                for mutate in (False, True):
+                    for bad in (None, "x@y@z"):
+                        out.append({"op": "rt_seq", "args": {"items": seq, "mutate": mutate, "bad_between": bad}})
+        return out
+
+    FALSY = [None, False, 0, 0.0, "", [], {}]
+
+    def gen_create_odd(self, types):
+        """falsy values of every JSON-representable type in each of the six argument positions; near misses of every type name and of
+        the literals the code compares with ("ga", "-", "@") in the type position"""
+        out = []
+        base = self.rt_case("f", "23", "updates", ("rhel", "7.1", "ga"))["args"]
+        for pos in self.POSITIONS:
+            for val in self.FALSY + [1, True, ["x"], {"a": 1}, 1.5]:
+                out.append({"op": "create", "args": dict(base, **{pos: val})})
+                if not pos.startswith("bp_"):
+                    out.append({"op": "create", "args": dict(base, bp_short=None, bp_version=None, bp_type=None, **{pos: val})})
+        for t in types:
+            for near in (t + "x", "x" + t, t[:-1], t[1:], t.upper(), t.capitalize(), t + "-", "-" + t, t + "-" + t, t.replace("-", ""), t.replace("-", "_"),
+                         t + "\n", t + " ", t + "1"):
+                out.append({"op": "create", "args": dict(base, type=near)})
+                out.append({"op": "create", "args": dict(base, bp_type=near)})
+                out.append(self.rt_case("f", "23", near))            # accepted-but-unknown types are outside the round-trip domain: correspondence only
+        return out
+
+    def gen_parse_shapes(self, rng, types):
+        """parse_release_id on identifiers with 0/1/2/3/4+ dashes and 0/1/2 '@' in every combination (correspondence of the parser model)"""
+        out = []
+        words = ["f", "23", "7.1", "Rawhide", "", "a1"] + types
+        for ats in (0, 1, 2):
+            for dl in range(0, 6):
+                for dr in range(0, 5 if ats else 1):
+                    for rep in range(3):
+                        def part(nd):
+                            ws = [rng.choice(words) for _ in range(nd + 1)]
+                            if rep == 0 and nd >= 2:
+                                ws[-1] = types[(dl + dr) % len(types)].split("-")[-1]
+                            return "-".join(ws)
+                        pieces = [part(dl)] + [part(dr) for _ in range(ats)]
+                        out.append({"op": "parse", "args": {"id": "@".join(pieces)}})
+        return out
+
     def gen_create(self, rng, types, i):
         f9 = [10 ** 9]
         s, v, t = self.gen_part(rng, types, i, f9)
@@ -331,6 +454,23 @@ class C14(Prop):
             return "".join(chr(48 + (1 if rs(w) else 0) + (2 if rv(w) else 0) + (4 if rt(w) else 0)
                                + (8 if spec_short(w) else 0) + (16 if spec_version(w) else 0))
                            for w in block_words(a["alphabet"], a["prefix"], a["n"]))
+        if op == "rt_seq":
+            res = []
+            for it in a["items"]:
+                cr = guarded(c.create_release_id, it["short"], it["version"], it["type"], it["bp_short"], it["bp_version"], it["bp_type"])
+                if "ok" not in cr:
+                    res.append({"create": cr, "parse": None}); continue
+                try:
+                    d = c.parse_release_id(cr["ok"])
+                    snap = {"ok": checklib.canon(dict(d))}
+                    if a.get("mutate"):                       # the caller edits what it got back (aliasing with any internal state)
+                        d["short"] = "MUTATED"; d["bp_short"] = "MUTATED"; d.pop("type", None); d["extra"] = 1
+                except Exception as e:       # noqa
+                    snap = checklib.err_class(e)
+                res.append({"create": cr, "parse": snap})
+                if a.get("bad_between") is not None:
+                    guarded(c.parse_release_id, a["bad_between"])
+            return res
         if op == "create_block":
             pred = self.real_pred(self.POS_PRED[a["pos"]])
             codes, bits = [], []
@@ -368,17 +508,22 @@ class C14(Prop):
                     {"op": "c14_pred", "args": {"which": "spec_" + a["which"], "s": a["s"]}}]
         if op == "pred_block":
             return [{"op": "c14_block", "args": a}]
+        if op == "rt_seq":
+            return [{"op": "c14_roundtrip", "args": it} for it in a["items"]]
         if op == "create_block":
             return [{"op": "c14_create_block", "args": a}]
         if op == "parse":
             return [{"op": "c14_parse", "args": a}]
-        if any(not isinstance(a[k], str) for k in ("short", "version", "type")):
-            return []
+        if any(not isinstance(a[k], str) for k in ("short", "version", "type")) or any(
+                not (a[k] is None or isinstance(a[k], str)) for k in ("bp_short", "bp_version", "bp_type")):
+            return []                                      # the model takes str (and None for the base-product defaults) only
         if op == "create":
             return [{"op": "c14_create", "args": a}]
         return [{"op": "c14_roundtrip", "args": a}]
 
     def model_result(self, case, outs):
+        if case["op"] == "rt_seq":
+            return list(outs)
         if case["op"] == "pred":
             return {"model": outs[0], "spec": outs[1]}
         return outs[0]
@@ -405,6 +550,8 @@ class C14(Prop):
                     if len(dr) >= 12:
                         break
             return {"real": dr, "model": dm}
+        if op == "rt_seq":
+            return None if real_out == model_out else {"real": real_out, "model": model_out}
         if op == "create_block":
             rc = real_out["codes"].replace("X", "1")        # the model op does not return the identifier; its format is checked by the oracle
             if rc == model_out:
@@ -480,6 +627,13 @@ class C14(Prop):
             return {"observed": {"unmatched": unmatched, "matched_known": matched, "examples": examples},
                     "required": "each predicate accepts exactly the documented language on every string of the block",
                     "kind": "pred-vs-spec"}
+        if op == "rt_seq":
+            for i, (it, r) in enumerate(zip(a["items"], real_out)):
+                o = self.oracle({"op": "roundtrip", "args": it}, r)
+                if o is not None:
+                    o = dict(o); o["observed"] = {"step": i, "of": len(a["items"]), "result": o["observed"]}; o["kind"] = "roundtrip-sequence"
+                    return o
+            return None
         if op == "create_block":
             bad = list(itertools.islice(self.create_mismatches(a, real_out), 20))
             if not bad:
@@ -505,8 +659,14 @@ class C14(Prop):
                 want = self.format(a)
                 if real_out["create"]["ok"] != want:
                     return {"observed": real_out["create"], "required": {"ok": want}, "kind": "create-format"}
-            elif main_ok is False and real_out["create"].get("err") != "ValueError":
-                return {"observed": real_out["create"], "required": {"err": "ValueError"}, "kind": "create-error-class"}
+            else:
+                # the exception is the one of the FIRST argument (in the order the code checks them) that is not accepted:
+                # ValueError where the predicate answers False, the predicate's own exception (TypeError on a non-string) otherwise
+                order = ["short", "version", "type"] + (["bp_short", "bp_version", "bp_type"] if a["bp_short"] else [])
+                first = [p[k] for k in order if p[k].get("ok") is not True][0]
+                want_err = "ValueError" if "ok" in first else first["err"]
+                if real_out["create"].get("err") != want_err:
+                    return {"observed": real_out["create"], "required": {"err": want_err}, "kind": "create-error-class"}
             return None
         # roundtrip: domain = what create accepts, known types, versions free of '-' and '@' (the property's quantifier)
         types = self.types()
@@ -552,6 +712,8 @@ class C14(Prop):
             for which in PREDS:
                 n = sum(cnt for ch, cnt in ((ch, real_out.count(ch)) for ch in set(real_out)) if (ord(ch) - 48) >> BIT[which] & 1)
                 dist["accepted_" + which] = dist.get("accepted_" + which, 0) + n
+        elif op == "rt_seq":
+            dist["rt_seq_steps"] = dist.get("rt_seq_steps", 0) + len(real_out)
         elif op == "create_block":
             dist["create_block_calls"] = dist.get("create_block_calls", 0) + len(real_out["codes"])
             dist["create_block_accepted"] = dist.get("create_block_accepted", 0) + real_out["codes"].count("1")
@@ -561,6 +723,8 @@ class C14(Prop):
         elif op == "parse":
             k = "parse_" + ("ok" if "ok" in real_out else real_out["err"])
             dist[k] = dist.get(k, 0) + 1
+            k = "parse_shape:%s@%s-" % (min(a["id"].count("@"), 2), min(a["id"].split("@")[0].count("-"), 4))
+            dist[k] = dist.get(k, 0) + 1
         else:
             cr = real_out["create"]
             k = op + "_" + ("ok" if "ok" in cr else cr["err"])
@@ -569,9 +733,9 @@ class C14(Prop):
                 dist["type:" + str(a["type"])] = dist.get("type:" + str(a["type"]), 0) + 1
                 if a["bp_short"]:
                     dist["with_base_product"] = dist.get("with_base_product", 0) + 1
-                if "-" in a["short"]:
+                if isinstance(a["short"], str) and "-" in a["short"]:
                     dist["dashed_short"] = dist.get("dashed_short", 0) + 1
-                if a["version"][:1].isdigit():
+                if isinstance(a["version"], str) and a["version"][:1].isdigit():
                     dist["numeric_version"] = dist.get("numeric_version", 0) + 1
 
     def shrink_candidates(self, case):
@@ -587,6 +751,16 @@ class C14(Prop):
                     if len(cands) >= 50:
                         break
             return sorted(cands, key=lambda c: len(c["args"]["s"]))
+        if op == "rt_seq":
+            its = a["items"]
+            out = [{"op": op, "args": dict(a, items=its[:i] + its[i + 1:])} for i in range(len(its)) if len(its) > 1]
+            if a.get("mutate"):
+                out.append({"op": op, "args": dict(a, mutate=False)})
+            if a.get("bad_between") is not None:
+                out.append({"op": op, "args": dict(a, bad_between=None)})
+            if len(its) == 1:
+                out.append({"op": "roundtrip", "args": its[0]})
+            return out
         if op == "create_block":
             r = self.real(case)
             cands = [{"op": "create", "args": {k: x["args"][k] for k in self.POSITIONS}}
@@ -602,6 +776,7 @@ class C14(Prop):
                 return {"op": op, "args": dict(a, **kw)}
             if a["bp_short"] is not None:
                 out.append(with_(bp_short=None, bp_version=None, bp_type=None))
+            if isinstance(a["bp_short"], str) and a["bp_short"]:
                 out.append(with_(short=a["bp_short"], version=a["bp_version"], type=a["bp_type"], bp_short=None, bp_version=None, bp_type=None))
             for key in ("short", "version", "bp_short", "bp_version"):
                 v = a[key]
